@@ -28,6 +28,9 @@ def run(rep, fb, tier):
     guards.rule_const_subscript(rep, fb)
     from ..rules import kbound
     kbound.rule_kbound(rep, fb)
+    from ..rules import lints
+    lints.rule_flat_length(rep, fb)
+    lints.rule_dtype_case(rep, fb)
     from ..rules import pyrules
     pyrules.rule_py_borrowed(rep, ["_util.py", "operations/structure.py", "operations/convert.py", "highlevel.py", "_connect/_numpy.py", "partition.py", "behaviors/string.py",
                                    "behaviors/categorical.py", "operations/reducers.py", "operations/describe.py"], floor=20)
